@@ -608,7 +608,8 @@ EvalE(e, env, s) ==
     [] e.k = "tmpl" -> TmplParts(e.parts, env, s, <<>>)
     [] e.k = "id" -> LET a == Lookup(env, e.n) IN
           IF a = 0 THEN (IF e.n \in Builtins THEN Ok(VBuiltin(e.n), s) ELSE Unknown(s))
-          ELSE IF s.store[a].t = "unset" THEN Raise("anyerror", s) ELSE Ok(s.store[a], s)
+          \* a top-level function name read before its definition has executed holds no value yet: outside the model
+          ELSE IF s.store[a].t = "unset" THEN Unknown(s) ELSE Ok(s.store[a], s)
     [] e.k = "bin" -> LET ra == EvalE(e.a, env, s) IN
           IF ra.k # "ok" THEN ra ELSE
           LET rb == EvalE(e.b, env, ra.s) IN
